@@ -121,9 +121,13 @@ func (ss *StructureSlot) generateAccessor(sc *StructureClass) {
 
 	slip.CurrentPackage.Define(
 		func(args slip.List) slip.Object {
-			ss.Function = slip.Function{Name: name, Args: args}
-			ss.Self = ss
-			return ss
+			// Each call site gets its own function object, sharing one
+			// would let the last compiled site rewrite the arguments of
+			// the others.
+			f := ss.Copy(ss.index)
+			f.Function = slip.Function{Name: name, Args: args}
+			f.Self = f
+			return f
 		},
 		&slip.FuncDoc{
 			Name: name,
